@@ -8,7 +8,7 @@ import numpy as np
 from .. import contracts, gen, ref
 
 DECIDING = ["contract:permute_systems", "O2:product-form", "O3:inverse-undoes", "O4:row-only=P.X", "contract:swap",
-            "contract:permutation_operator", "O5:swap_operator", "O6:sparse=dense", "O1:omitted-dim"]
+            "contract:permutation_operator", "O5:swap_operator", "O6:sparse=dense", "O1:omitted-dim", "H1:repeat-call"]
 RULE = ("cases = every permutation of n<=4 subsystems (random ones for n=5,6) x random independent row/column local "
         "dimensions in 1..4 x flags x dtype x memory layout x dim calling form, entries are unique ids; a signature is "
         "(monitor, kind, n, flags, rectangular?) and is non-trivial when the permutation is not the identity")
@@ -43,6 +43,8 @@ def cases(tier):
         out.append(("internal", r))
     for d, n in ((4, 3), (5, 3), (6, 3), (3, 4), (7, 3), (2, 6), (3, 5), (10, 3)):
         out.append(("nodim", d, n))
+    for r in range(40 if tier == "quick" else 4000):
+        out.append(("repeat", r))
     if tier == "thorough":
         out.append(("suite", 0))
     return out
@@ -358,3 +360,31 @@ def _run_nodim(ctx, spec, rng):
             ctx.check("O1:omitted-dim", np.array_equal(res, ref.permute(m, perm, [d] * n, [d] * n)), sig=("mat", d, n), nt=True, mech="permute_systems:omitted-dim-matrix",
                       detail={"d": d, "n": n, "perm": perm})
     ctx.sample("O1:omitted-dim", {"d": d, "n": n, "root_as_float": (d ** n) ** (1 / n)})
+
+
+def _run_repeat(ctx, spec, rng):
+    """History monitor: the same argument OBJECTS (index arrays given as ndarrays) used for two consecutive calls."""
+    from toqito.perms import permutation_operator, permute_systems, swap
+
+    from ..core import repeat_call
+
+    n = int(rng.integers(3, 5))
+    d = gen.dims(rng, n, 1, 3, min_total=4)
+    big = int(np.prod(d))
+    x = gen.unique_ids((big, big), "i")
+    i, j = (int(v) + 1 for v in rng.choice(n, size=2, replace=False))
+    sys_arr = np.array([i, j])
+    dim_arr = np.array(d)
+    perm2 = list(range(n))
+    perm2[i - 1], perm2[j - 1] = perm2[j - 1], perm2[i - 1]
+    res = repeat_call(ctx, "H1:repeat-call", swap, [x, sys_arr, dim_arr], ["rho", "sys", "dim"], sig=(n,))
+    if res is not ctx_failed():
+        ctx.check("O5:swap=transposition", np.array_equal(res, ref.permute(x, perm2, d, d)), sig=("ndarray-sys", n), nt=True, mech="swap:transposition[ndarray-sys]", detail={"sys": [i, j], "d": d})
+    perm_arr = np.array([int(v) for v in rng.permutation(n)])
+    dim2 = np.array([d, d])
+    repeat_call(ctx, "H1:repeat-call", permute_systems, [x, perm_arr, dim2, False, bool(spec[1] % 2)], ["input_mat", "perm", "dim", "row_only", "inv_perm"], sig=(n,))
+    v = gen.unique_ids((big,), "f")
+    repeat_call(ctx, "H1:repeat-call", permute_systems, [v, perm_arr, dim_arr], ["input_mat", "perm", "dim"], sig=("vec", n))
+    repeat_call(ctx, "H1:repeat-call", permutation_operator, [dim_arr, perm_arr, bool(spec[1] % 2), bool(spec[1] % 3 == 0)], ["dim", "perm", "inv_perm", "is_sparse"], sig=(n,),
+                equal=lambda a, b: np.array_equal(a.toarray() if hasattr(a, "toarray") else a, b.toarray() if hasattr(b, "toarray") else b))
+    ctx.sample("H1:repeat-call", {"n": n, "dims": d, "sys": [i, j], "perm": perm_arr})
